@@ -82,3 +82,50 @@ Proof.
   destruct (calculate_pdf_refines exf_fmax 4.5%float 2 1 exf_e _ _ _ _ H1 H2 H3 H4 H5 H6 H7) as (_ & _ & _ & _ & E).
   split; [exact E|]. split; [exact f2r_eighth | exact f2r_1000].
 Qed.
+
+(* ---------- query_density on concrete floats: EPSILON = 1e-20 (the binary64 number 0x1.79ca10c924223p-67), range [0.125, 0.375], one term 0.25 ---------- *)
+Lemma f2r_three_eighths : f2r 0.375%float = 3 / 8.
+Proof.
+  f2r_decode 0.375%float. change (bpow radix2 (-54)) with (/ IZR (2 ^ 54)).
+  change (2 ^ 54)%Z with 18014398509481984%Z. lra.
+Qed.
+
+Lemma f2r_eps_range : / 2 ^ 1000 <= f2r 0x1.79ca10c924223p-67%float <= 1.
+Proof.
+  f2r_decode 0x1.79ca10c924223p-67%float.
+  match goal with |- _ <= IZR ?m * bpow radix2 ?ex <= _ =>
+    assert (L : bpow radix2 (-1000) <= bpow radix2 ex) by (apply bpow_le; lia);
+    assert (U : bpow radix2 ex <= bpow radix2 (-53)) by (apply bpow_le; lia);
+    assert (P : 0 < bpow radix2 ex) by apply bpow_gt_0
+  end.
+  rewrite <- bpow2_neg_nat. change (- Z.of_nat 1000)%Z with (-1000)%Z.
+  change (bpow radix2 (-53)) with (/ IZR (2 ^ 53)) in U. change (2 ^ 53)%Z with 9007199254740992%Z in U.
+  assert (P0 : 0 < bpow radix2 (-1000)) by apply bpow_gt_0.
+  split; nra.
+Qed.
+
+Lemma exf_query :
+  (1 <= 1)%nat /\ (Z.of_nat 1 <= 2 ^ 53)%Z /\
+  (forall l, (l < 1)%nat -> ffin (exf_e 0 l) = true /\ 0 <= f2r (exf_e 0 l) <= 1) /\
+  ffin 0.125%float = true /\ ffin 0.375%float = true /\ ffin 0x1.79ca10c924223p-67%float = true /\
+  0 <= f2r 0.125%float /\ f2r 0.125%float <= f2r 0.375%float /\ f2r 0.375%float <= 1 /\
+  / 2 ^ 1000 <= f2r 0x1.79ca10c924223p-67%float <= 1 /\
+  query_density FOps 1000 0x1.79ca10c924223p-67%float 0.125%float 0.375%float 1 (exf_e 0) = 500.5%float /\
+  ffin 500.5%float = true /\
+  f2r 500.5%float
+  = query_density (RndOps rnd64) 1000 (f2r 0x1.79ca10c924223p-67%float) (f2r 0.125%float) (f2r 0.375%float) 1 (fun l => f2r (exf_e 0 l)).
+Proof.
+  assert (H3 : forall l, (l < 1)%nat -> ffin (exf_e 0 l) = true /\ 0 <= f2r (exf_e 0 l) <= 1).
+  { intros l _. cbn [exf_e]. split; [reflexivity|]. rewrite f2r_quarter. lra. }
+  assert (H7 : 0 <= f2r 0.125%float) by (rewrite f2r_eighth; lra).
+  assert (H8 : f2r 0.125%float <= f2r 0.375%float) by (rewrite f2r_eighth, f2r_three_eighths; lra).
+  assert (H9 : f2r 0.375%float <= 1) by (rewrite f2r_three_eighths; lra).
+  assert (HQ : query_density FOps 1000 0x1.79ca10c924223p-67%float 0.125%float 0.375%float 1 (exf_e 0) = 500.5%float)
+    by (vm_compute; reflexivity).
+  split; [lia|]. split; [simpl; lia|]. split; [exact H3|]. split; [reflexivity|]. split; [reflexivity|].
+  split; [reflexivity|]. split; [exact H7|]. split; [exact H8|]. split; [exact H9|].
+  split; [exact f2r_eps_range|]. split; [exact HQ|].
+  destruct (query_density_refines 0x1.79ca10c924223p-67%float 0.125%float 0.375%float 1 (exf_e 0) ltac:(lia) ltac:(simpl; lia) H3
+              eq_refl eq_refl eq_refl H7 H8 H9 f2r_eps_range) as [F E].
+  rewrite HQ in F, E. split; [exact F | exact E].
+Qed.
